@@ -170,10 +170,12 @@ func TestExploreFP(t *testing.T) {
 	// the default pool changes while clients are bound: clients bound in either pool, DISCOVERs of bound clients
 	// under either default, renewals, expiry and release of leases of the pool that is not the default
 	ev := func(op string, c int) core.Event { return core.Event{"op": op, "c": c, "u": -1} }
+	// (rid: a renewal through a relay agent that adds only a remote-id; plain renewal in the direct variant)
+	rid := func(c int) core.Event { return core.Event{"op": "REQOWN", "c": c, "u": -1, "rid": 1} }
 	poolEvs := []core.Event{ev("DISC", 1), ev("REQSEL", 1), ev("SETDEF2", 0), ev("DISC", 1), ev("DISC", 2), ev("REQSEL", 2), ev("DISC", 2),
-		ev("SETDEF1", 0), ev("DISC", 1), ev("DISC", 2), ev("REQOWN", 1), ev("REQOWN", 2), ev("ADV", 0), ev("REQOWN", 2), ev("DISC", 2),
-		ev("ADV", 0), ev("CLEAN", 0), ev("DISC", 1), ev("REQSEL", 1), ev("SETDEF2", 0), ev("DISC", 1), ev("REL", 1), ev("DISC", 1),
-		ev("REQSEL", 1), ev("DISC", 1), ev("REL", 2), ev("SETDEF1", 0), ev("DISC", 1), ev("DISC", 2)}
+		ev("SETDEF1", 0), ev("DISC", 1), ev("DISC", 2), rid(1), ev("REQOWN", 2), ev("ADV", 0), ev("REQOWN", 2), ev("DISC", 2),
+		ev("ADV", 0), ev("CLEAN", 0), ev("DISC", 1), ev("REQSEL", 1), ev("SETDEF2", 0), ev("DISC", 1), rid(1), ev("REL", 1), ev("DISC", 1),
+		ev("REQSEL", 1), ev("DISC", 1), rid(2), ev("REL", 2), ev("SETDEF1", 0), ev("DISC", 1), ev("DISC", 2)}
 	for _, ps := range []*Sys{all[0].WithFastPath(), all[2].WithFastPath()} {
 		tab, pr := core.Chain(ps, ps.Name()+"#pools", poolEvs, false)
 		if pr != nil {
